@@ -243,6 +243,8 @@ func main() {
 		cmdNavCheck(os.Args[2:])
 	case "cli-check":
 		cmdCliCheck(os.Args[2:])
+	case "allot-scale":
+		cmdAllotScale(os.Args[2:])
 	case "conc":
 		cmdConc(os.Args[2:])
 	case "store-replay":
